@@ -397,6 +397,11 @@ def gen_spec(rng: Any, fw: Optional[str] = None, mode: Optional[str] = None, key
             if rng.random() < 0.15:
                 f["declared"] = pick_declared(rng, produced_atype(fw, a) or a, 0.0, 0.6)   # the user declares a type ON the filter feature
             filters.append(f)
+    if consumer and filters:
+        # features of one group with different options give the group's filters different option sets: the planner refuses that
+        # ("different filters for different features"; not a matter of this property)
+        for d in consumer["deps"]:
+            d["own"] = "SAbsent"
     if consumer and n_real > 1:
         # same reason as above: a rule or a declaration on a filter feature would give a joined root a second declared type
         for g in groups:
@@ -433,6 +438,28 @@ def seed_matrix() -> List[dict]:
                         req = [dict(d, own=own) for d in deps]
                     out.append({"fw": fw, "mode": mode, "key": key, "groups": groups, "consumer": cons,
                                 "links": [[0, ["uid"], 1, ["uid"], "inner"]], "filters": [], "requested": req})
+    return out
+
+
+KF_SPLIT = "C17-two-declared-types-on-a-joined-root-rejected"
+KF_SPLIT_MSG = "There are more than one solution for the join"
+
+
+def split_cells() -> List[dict]:
+    """Witness cells of the known finding KF_SPLIT: Users(uid, a:int64, b:string) x Orders(uid, c:double) joined on uid for a
+    consumer whose input features declare a: INT64, b: STRING, c: DOUBLE - every declaration honoured, the request must succeed."""
+    out = []
+    for fw in FRAMEWORKS:
+        for mode in ("lenient", "strict_api"):
+            groups = [{"name": "Users", "cols": [["uid", "A_string"], ["a", "A_int64"], ["b", "A_string"]], "index": [["uid"]], "rule": {}},
+                      {"name": "Orders", "cols": [["uid", "A_string"], ["c", "A_float64"]], "index": [["uid"]], "rule": {}}]
+            deps = [{"group": 0, "name": "a", "declared": "INT64", "own": "SAbsent"},
+                    {"group": 0, "name": "b", "declared": "STRING", "own": "SAbsent"},
+                    {"group": 1, "name": "c", "declared": "DOUBLE", "own": "SAbsent"}]
+            out.append({"fw": fw, "mode": mode, "key": "A_string", "groups": groups,
+                        "consumer": {"name": "score", "group_name": "Score", "atype": "A_float64", "deps": deps, "rule": {}},
+                        "links": [[0, ["uid"], 1, ["uid"], "inner"]], "filters": [],
+                        "requested": [{"group": 2, "name": "score", "declared": "DOUBLE", "own": "SAbsent"}]})
     return out
 
 
@@ -500,9 +527,9 @@ def run_family(rep: vlib.Reporter, tier: str, seed: int) -> bool:
     """-> True when a concrete failing input was reported"""
     import random
     rng = random.Random(seed * 41 + 11)
-    specs = seed_matrix()
+    specs = seed_matrix() + split_cells()
     n_fixed = len(specs)
-    n_rand = 1500 if tier == "thorough" else 170
+    n_rand = 6000 if tier == "thorough" else 200
     for k in range(n_rand):
         specs.append(gen_spec(rng, fw=FRAMEWORKS[k % 3]))
     results = [run_spec(s) for s in specs]
@@ -510,9 +537,16 @@ def run_family(rep: vlib.Reporter, tier: str, seed: int) -> bool:
     bad_m, info = vlib.run_cases("C17", "links", REQ, "chk_links", terms, case_type="link_case", shard=150)
     bad_s, info_s = vlib.run_cases("C17", "links_spec", REQ, "chk_links_spec", terms, case_type="link_case", shard=150)
     bad_m_s, bad_s_s = set(bad_m), set(bad_s)
+    # known-defect domain (decided in Coq: in_kf_split_domain): the request is refused with the planner's join-ambiguity error
+    cand = [i for i in sorted(bad_m_s | bad_s_s) if KF_SPLIT_MSG in results[i]["obs"]]
+    in_dom: set = set()
+    if cand:
+        not_in, _ = vlib.run_cases("C17", "links_kf", REQ, "in_kf_split_domain", [terms[i] for i in cand], case_type="link_case")
+        in_dom = {cand[j] for j in range(len(cand)) if j not in set(not_in)}
     dist: Dict[str, int] = {}
     cover: Dict[str, int] = {}
     found = False
+    n_reported = 0
     for i, (s, r) in enumerate(zip(specs, results)):
         k = f"{s['fw']}:{s['mode']}:{r['obs'].split(':')[0]}"
         dist[k] = dist.get(k, 0) + 1
@@ -526,7 +560,11 @@ def run_family(rep: vlib.Reporter, tier: str, seed: int) -> bool:
         typed = any(t is not None for g, n, t, st in r["entries"])
         if typed and s["links"] is not None and n_idx > 0:
             rep.nontrivial(("links", json.dumps(s, sort_keys=True)))
-        if i in bad_m_s or i in bad_s_s:
+        if i in in_dom:
+            rep.finding(KF_SPLIT, f"{s['fw']} {s['mode']}: {r['obs']}", {"kind": "links", "spec": s, "result": r})
+            continue
+        if (i in bad_m_s or i in bad_s_s) and n_reported < 12:
+            n_reported += 1
             which = ("neither the model's (Model/ValidateSet.run_request) nor what the statement asks for" if i in bad_m_s and i in bad_s_s
                      else "not what the statement asks for (the model reproduces it)" if i in bad_s_s
                      else "not the model's (Model/ValidateSet.run_request); it agrees with the statement")
@@ -541,7 +579,8 @@ def run_family(rep: vlib.Reporter, tier: str, seed: int) -> bool:
             found = found or i in bad_s_s
     rep.count(len(specs))
     rep.add("links_family", {**info, "cases": len(specs), "fixed_matrix": n_fixed, "generated": n_rand,
-                             "model_disagreements": len(bad_m), "statement_disagreements": len(bad_s),
+                             "model_disagreements": len(bad_m_s - in_dom), "statement_disagreements": len(bad_s_s - in_dom),
+                             "known_defect_domain_cells": len(in_dom),
                              "outcome_distribution": dist, "coverage": cover,
                              "spec_eval_s": info_s["coq_eval_s"]})
     if specs:
